@@ -450,6 +450,12 @@ def _table_checks(case, rec, s3):
         victim = std[len(std) // 2]
         base_names = {"N1", "C2", "N3", "C4", "C5", "C6", "N7", "C8", "N9", "O6", "N6", "N2", "O2", "O4", "N4", "C7"}
         variants.append(("base of %s stripped" % (victim,), [r for r in rows if not ((r["chain"], r["resseq"], r["icode"]) == victim and r["name"] in base_names)]))
+    # a second model holding a slightly different conformation of the same residues (an ensemble, frames of a
+    # trajectory): the table of a multi-model input describes ONE conformation per row (the first model's, as the
+    # references are taken from the first occurrence of every residue)
+    jr = _r.Random("C18:model2:" + case["file"])
+    second = [dict(r, model=r["model"] + 1, x=round(r["x"] + jr.gauss(0, 0.15), 3), y=round(r["y"] + jr.gauss(0, 0.15), 3), z=round(r["z"] + jr.gauss(0, 0.15), 3)) for r in rows]
+    variants.append(("two models, the second a perturbed copy", rows + second))
     for what, rws in variants:
         by, ref = _ref_by_residue(rws)
         _cur["ctx"] = "v2 torsion table, " + what
